@@ -192,7 +192,55 @@ def k_sec_header(ctx, service, subservice, source_id, ack):
               "unpack", "", case, observed=repr(h))
 
 
-KINDS = {"tc": k_tc, "tc_refuse": k_tc_refuse, "tc_short": k_tc_short, "sec_header": k_sec_header}
+def k_view_history(ctx, seed):
+    """Multi-step use of one object: after any mix of pack / calc_crc / to_space_packet / unpack and field changes through the
+    public setters, pack() and the space-packet view both equal the model of the *current* field values."""
+    import random
+    tcm, sp, check_pus_crc = _imp()
+    r = random.Random(f"tcview/{seed}")
+    case = {"k": "view_history", "seed": seed}
+    ctx.case("tc_view_history", seed, sample=case)
+    f = {"apid": r.getrandbits(11), "count": r.getrandbits(14), "service": r.getrandbits(8), "subservice": r.getrandbits(8), "source_id": r.getrandbits(16),
+         "ack": r.getrandbits(4), "data": r.randbytes(r.randrange(0, 12))}
+    t = build(r.choice(ROUTES), f["apid"], f["count"], f["service"], f["subservice"], f["source_id"], f["ack"], f["data"])
+    if r.random() < 0.4:
+        t = tcm.PusTc.unpack(bytes(t.pack()))
+    ops = []
+    for step in range(r.randrange(2, 9)):
+        op = r.choice(("pack", "calc_crc", "view", "apid", "seq_count", "source_id", "app_data", "pack_cached"))
+        ops.append(op)
+        if op == "pack":
+            got = bytes(t.pack())
+        elif op == "pack_cached":
+            t.pack()
+            got = bytes(t.pack(recalc_crc=False))
+        elif op == "calc_crc":
+            t.calc_crc()
+            continue
+        elif op == "view":
+            got = bytes(t.to_space_packet().pack())
+        else:
+            if op == "apid":
+                f["apid"] = r.getrandbits(11)
+                t.apid = f["apid"]
+            elif op == "seq_count":
+                f["count"] = r.getrandbits(14)
+                t.seq_count = f["count"]
+            elif op == "source_id":
+                f["source_id"] = r.getrandbits(16)
+                t.source_id = f["source_id"]
+            else:
+                f["data"] = r.randbytes(r.randrange(0, 12))
+                t.app_data = f["data"]
+            continue
+        want = R.tc(f["apid"], f["count"], f["service"], f["subservice"], f["source_id"], f["ack"], f["data"])
+        what = "space_packet_view" if op == "view" else "pack"
+        if not ctx.check("tc.view_history", got == want, f"{what}_differs_from_current_fields", _octet_diff(got, want) + "/after_field_change" if any(o in ops for o in ("apid", "seq_count", "source_id", "app_data")) else _octet_diff(got, want),
+                         dict(case, ops=ops), observed=got, expected=want):
+            return
+
+
+KINDS = {"tc": k_tc, "tc_refuse": k_tc_refuse, "tc_short": k_tc_short, "sec_header": k_sec_header, "view_history": k_view_history}
 ROUTES = ("ctor", "from_sp_header", "composite")
 
 
@@ -255,6 +303,8 @@ def run(ctx):
         n = r.choice((0, 1, 2, 3, 5, 8, 13, 21, 34, 55, 89, 144, 233, 377)) if r.random() < 0.7 else r.randrange(0, 2000)
         k_tc(ctx, r.choice(ROUTES), rand_uint(r, 11), rand_uint(r, 14), rand_uint(r, 8), rand_uint(r, 8), rand_uint(r, 16),
              rand_uint(r, 4), rnd_data(n), model_fed=r.random() < 0.5)
+    for j in range(ctx.n(1500, 150_000)):
+        k_view_history(ctx, ctx.seed * 1_000_003 + ctx.shard[0] * 100_003 + j)
     # rejection clause
     reps = 3 if ctx.quick else 12
     for n in range(7, 13):
@@ -268,6 +318,6 @@ def conclude(ctx):
             ctx.require(ctx.classes.get(f"tc/{route}/len={lc}", 0) > 0, f"class tc/{route}/len={lc} empty")
     for n in range(7, 13):
         ctx.require(ctx.tables.get("short_declared_total", {}).get(str(n), 0) > 0, f"no crafted short buffer with declared total {n}")
-    for m in ("tc.pack", "tc.unpack", "tc.roundtrip", "tc.space_packet_view", "tc.crc", "tc.refusal",
+    for m in ("tc.pack", "tc.unpack", "tc.roundtrip", "tc.space_packet_view", "tc.crc", "tc.refusal", "tc.view_history",
               "tc.short_declared_rejected", "tc.packet_len"):
         ctx.require(ctx.monitors.get(m, {}).get("evaluations", 0) > 0, f"monitor {m} never evaluated")
